@@ -62,6 +62,9 @@ type kern struct {
 	dynLDS       int // extra dynamic LDS (packet.GroupSegmentSize = lds + dynLDS)
 	filterOdd    bool
 	injectAt     int
+	// tail > 0: the last work-group holds only tail work-items (grid size not a multiple of the work-group size),
+	// so its last wavefront is partially populated
+	tail int
 }
 
 type cfg struct {
@@ -71,6 +74,13 @@ type cfg struct {
 	dispatchers int
 	cus         []cuSpec
 	kernels     []kern
+	// drvPortBuf > 0: the CP's driver-facing port gets this outgoing-buffer size (default 4096) and the driver takes
+	// one message per drvEvery cycles: back-pressure on kernel-completion responses
+	drvPortBuf, drvEvery int
+}
+
+func mkCfg(cuPortBuf int, batch bool, alg string, dispatchers int, cus []cuSpec, kernels []kern) cfg {
+	return cfg{cuPortBuf: cuPortBuf, batch: batch, alg: alg, dispatchers: dispatchers, cus: cus, kernels: kernels}
 }
 
 type resident struct {
@@ -112,6 +122,9 @@ func body(c cfg) explore.Body {
 		if c.cuPortBuf > 0 && c.alg != "" {
 			p.ToCUs = sim.NewPort(p, 4096, c.cuPortBuf, "CP.ToCUs")
 		}
+		if c.drvPortBuf > 0 && c.alg != "" {
+			p.ToDriver = sim.NewPort(p, 4096, c.drvPortBuf, "CP.ToDriver")
+		}
 		if c.alg != "" {
 			cp.VerifUseDispatchers(p, c.alg, c.dispatchers, 2, ifc)
 		}
@@ -139,6 +152,9 @@ func body(c cfg) explore.Body {
 				WorkgroupSizeX: uint16(64 * k.wfPerWG), WorkgroupSizeY: 1, WorkgroupSizeZ: 1,
 				GridSizeX: uint32(64 * k.wfPerWG * k.wgs), GridSizeY: 1, GridSizeZ: 1,
 				GroupSegmentSize: uint32(k.lds + k.dynLDS),
+			}
+			if k.tail > 0 {
+				pk.GridSizeX = uint32(64*k.wfPerWG*(k.wgs-1) + k.tail)
 			}
 			r := protocol.NewLaunchKernelReq(fakePort(drv), toDriver)
 			r.PID = 1
@@ -207,8 +223,26 @@ func body(c cfg) explore.Body {
 				return
 			}
 			spec := c.cus[cuIdx]
-			if len(req.Wavefronts) != l.k.wfPerWG {
-				fail("map-wrong-wavefront-count", "kernel %d wg %v: %d wavefront locations, %d wavefronts", ki, id, len(req.Wavefronts), l.k.wfPerWG)
+			wgItems := 64 * l.k.wfPerWG
+			if l.k.tail > 0 && id[0] == l.k.wgs-1 {
+				wgItems = l.k.tail
+			}
+			if wantWfs := (wgItems + 63) / 64; len(req.Wavefronts) != wantWfs || len(req.WorkGroup.Wavefronts) != wantWfs {
+				fail("map-wrong-wavefront-count", "kernel %d wg %v: %d wavefront locations, %d wavefronts in the work-group, %d expected", ki, id, len(req.Wavefronts), len(req.WorkGroup.Wavefronts), wantWfs)
+			}
+			// the lanes a wavefront starts with are exactly the work-items it holds (no lane for a coordinate outside the grid)
+			for j, wf := range req.WorkGroup.Wavefronts {
+				n := wgItems - 64*j
+				if n > 64 {
+					n = 64
+				}
+				want := ^uint64(0)
+				if n < 64 {
+					want = uint64(1)<<uint(n) - 1
+				}
+				if wf.InitExecMask != want {
+					fail("wavefront-initial-exec-mask-wrong", "kernel %d wg %v wavefront %d holds %d work-items but starts with EXEC %#016x (want %#016x)", ki, id, j, n, wf.InitExecMask, want)
+				}
 			}
 			r := &resident{k: ki, wg: id[0], cu: cuIdx, locs: req.Wavefronts, mapID: req.ID,
 				sgprB: roundUp(l.k.sgpr, 16) * 4, vgprB: roundUp(l.k.vgpr, 4) * 4, ldsB: roundUp(l.k.lds+l.k.dynLDS, 256)}
@@ -319,6 +353,9 @@ func body(c cfg) explore.Body {
 		// ---- environment
 		drvF := &world.Feeder{W: w, Port: toDriver, Tag: "driver", DelayAlphabet: []int{1, 3}}
 		drvSink := &world.Sink{W: w, Port: toDriver, Tag: "driver", StallAlphabet: []int{1, 4}, Handle: func(m sim.Msg) {}}
+		if c.drvEvery > 0 {
+			drvSink.Every, drvSink.NoChoice = c.drvEvery, true
+		}
 		cuF := &world.Feeder{W: w, Port: toCUs, Tag: "cu-completions", Reorder: true, DelayAlphabet: []int{2, 7}}
 		cuF.OnDeliver = func(m sim.Msg) {
 			for _, id := range m.(*protocol.WGCompletionMsg).RspTo {
@@ -467,7 +504,7 @@ func panicSig(txt string) string {
 // once ... the announced number of work-groups equals the number produced, also when a work-group filter
 // splits the grid"): when this binary runs as the part "dispatch" of check C08 only they are reported.
 var c08Sigs = map[string]bool{"work-group-mapped-twice": true, "work-group-never-mapped": true, "filtered-work-group-mapped": true,
-	"work-group-outside-grid": true, "map-wrong-wavefront-count": true, "map-unknown-kernel": true}
+	"work-group-outside-grid": true, "map-wrong-wavefront-count": true, "map-unknown-kernel": true, "wavefront-initial-exec-mask-wrong": true}
 
 func main() {
 	partOf := ""
@@ -512,25 +549,47 @@ func main() {
 			}
 			pre := fmt.Sprintf("%s/disp%d/", an, d)
 			list = append(list,
-				sc{pre + "1cu/kA", cfg{0, false, alg, d, []cuSpec{small}, []kern{kA}}},
-				sc{pre + "2cu/kA", cfg{0, false, alg, d, []cuSpec{small, small}, []kern{kA}}},
-				sc{pre + "2cu/kBig", cfg{0, false, alg, d, []cuSpec{small, small}, []kern{kBig}}},
-				sc{pre + "1cu/kZero", cfg{0, false, alg, d, []cuSpec{tiny}, []kern{kZero}}},
-				sc{pre + "2cu/kFull", cfg{0, false, alg, d, []cuSpec{small, small}, []kern{kFull}}},
-				sc{pre + "2cu/kFilt", cfg{0, false, alg, d, []cuSpec{small, tiny}, []kern{kFilt}}},
-				sc{pre + "3cu/kOdd", cfg{0, false, alg, d, []cuSpec{small, tiny, small}, []kern{kOdd}}},
-				sc{pre + "1cu/kDyn", cfg{0, false, alg, d, []cuSpec{small}, []kern{kDyn}}},
+				sc{pre + "1cu/kA", mkCfg(0, false, alg, d, []cuSpec{small}, []kern{kA})},
+				sc{pre + "2cu/kA", mkCfg(0, false, alg, d, []cuSpec{small, small}, []kern{kA})},
+				sc{pre + "2cu/kBig", mkCfg(0, false, alg, d, []cuSpec{small, small}, []kern{kBig})},
+				sc{pre + "1cu/kZero", mkCfg(0, false, alg, d, []cuSpec{tiny}, []kern{kZero})},
+				sc{pre + "2cu/kFull", mkCfg(0, false, alg, d, []cuSpec{small, small}, []kern{kFull})},
+				sc{pre + "2cu/kFilt", mkCfg(0, false, alg, d, []cuSpec{small, tiny}, []kern{kFilt})},
+				sc{pre + "3cu/kOdd", mkCfg(0, false, alg, d, []cuSpec{small, tiny, small}, []kern{kOdd})},
+				sc{pre + "1cu/kDyn", mkCfg(0, false, alg, d, []cuSpec{small}, []kern{kDyn})},
+			)
+			// grids that are not a multiple of the work-group size: the last work-group is built after earlier ones have
+			// completed (seed C08-7: recycled wavefront objects kept the EXEC mask of their previous life)
+			kTail1 := kern{wgs: 5, wfPerWG: 1, sgpr: 16, vgpr: 4, lds: 256, tail: 10}
+			kTail2 := kern{wgs: 4, wfPerWG: 2, sgpr: 16, vgpr: 4, lds: 256, tail: 70}
+			list = append(list,
+				sc{pre + "1cu-tiny/kTail1", mkCfg(0, false, alg, d, []cuSpec{tiny}, []kern{kTail1})},
+				sc{pre + "1cu/kTail2", mkCfg(0, false, alg, d, []cuSpec{small}, []kern{kTail2})},
+				sc{pre + "2cu/kTail2+kTail1-late", mkCfg(0, false, alg, d, []cuSpec{small, tiny}, []kern{kTail2, late(kTail1, 3)})},
 			)
 			list = append(list,
-				sc{pre + "batch/2cu/kA", cfg{0, true, alg, d, []cuSpec{small, small}, []kern{kA}}},
-				sc{pre + "batch/1cu/kZero", cfg{0, true, alg, d, []cuSpec{tiny}, []kern{kZero}}},
+				sc{pre + "batch/2cu/kA", mkCfg(0, true, alg, d, []cuSpec{small, small}, []kern{kA})},
+				sc{pre + "batch/1cu/kZero", mkCfg(0, true, alg, d, []cuSpec{tiny}, []kern{kZero})},
 			)
 			if d > 1 && alg != "" {
 				// a full CU-facing port while another dispatcher sends the last work-group of its kernel
 				list = append(list,
-					sc{pre + "portbuf2/1cu/kA+kOne", cfg{2, false, alg, d, []cuSpec{small}, []kern{kA, kOne}}},
-					sc{pre + "portbuf1/2cu/kZero+kOne+kOne", cfg{1, false, alg, d, []cuSpec{small, tiny}, []kern{kZero, kOne, late(kOne, 2)}}},
-					sc{pre + "portbuf2/2cu/kFull+kOne", cfg{2, false, alg, d, []cuSpec{small, small}, []kern{kFull, late(kOne, 1)}}},
+					sc{pre + "portbuf2/1cu/kA+kOne", mkCfg(2, false, alg, d, []cuSpec{small}, []kern{kA, kOne})},
+					sc{pre + "portbuf1/2cu/kZero+kOne+kOne", mkCfg(1, false, alg, d, []cuSpec{small, tiny}, []kern{kZero, kOne, late(kOne, 2)})},
+					sc{pre + "portbuf2/2cu/kFull+kOne", mkCfg(2, false, alg, d, []cuSpec{small, small}, []kern{kFull, late(kOne, 1)})},
+				)
+			}
+			if alg != "" {
+				// a full driver-facing port when a kernel completes (the response is retried), then further kernels on
+				// the same dispatchers (seed C09-7: the retried response was kept and sent again for later kernels)
+				bp := func(buf, every int, ks ...kern) cfg {
+					c := mkCfg(0, false, alg, d, []cuSpec{small}, ks)
+					c.drvPortBuf, c.drvEvery = buf, every
+					return c
+				}
+				list = append(list,
+					sc{pre + "drvbuf1-slow12/1cu/kOne+kOne+kOne-late+kOne-late", bp(1, 12, kOne, kOne, late(kOne, 4), late(kOne, 5))},
+					sc{pre + "drvbuf1-slow25/1cu/kZero+kOne+kA-late", bp(1, 25, kZero, kOne, late(kA, 6))},
 				)
 			}
 			if d > 1 {
@@ -542,18 +601,18 @@ func main() {
 				kS2 := kern{wgs: 2, wfPerWG: 1, sgpr: 32, vgpr: 8, lds: 512}
 				kS3 := kern{wgs: 2, wfPerWG: 1, sgpr: 48, vgpr: 12, lds: 768}
 				list = append(list,
-					sc{pre + "1cu-mid/kS1+kS2", cfg{0, false, alg, d, []cuSpec{mid}, []kern{kS1, kS2}}},
-					sc{pre + "1cu-mid/kS1+kS2-late3", cfg{0, false, alg, d, []cuSpec{mid}, []kern{kS1, late(kS2, 3)}}},
-					sc{pre + "1cu-mid/kS1+kS3-late5", cfg{0, false, alg, d, []cuSpec{mid}, []kern{kS1, late(kS3, 5)}}},
-					sc{pre + "1cu-mid/kS2+kS1-late2+kS3-late6", cfg{0, false, alg, d, []cuSpec{mid}, []kern{kS2, late(kS1, 2), late(kS3, 6)}}},
+					sc{pre + "1cu-mid/kS1+kS2", mkCfg(0, false, alg, d, []cuSpec{mid}, []kern{kS1, kS2})},
+					sc{pre + "1cu-mid/kS1+kS2-late3", mkCfg(0, false, alg, d, []cuSpec{mid}, []kern{kS1, late(kS2, 3)})},
+					sc{pre + "1cu-mid/kS1+kS3-late5", mkCfg(0, false, alg, d, []cuSpec{mid}, []kern{kS1, late(kS3, 5)})},
+					sc{pre + "1cu-mid/kS2+kS1-late2+kS3-late6", mkCfg(0, false, alg, d, []cuSpec{mid}, []kern{kS2, late(kS1, 2), late(kS3, 6)})},
 				)
 				list = append(list,
-					sc{pre + "batch/1cu/kOne+kOne", cfg{0, true, alg, d, []cuSpec{small}, []kern{kOne, kOne}}},
-					sc{pre + "1cu/kOne+kOne+kZero", cfg{0, false, alg, d, []cuSpec{small}, []kern{kOne, kOne, late(kZero, 3)}}},
-					sc{pre + "batch/1cu/kA+kA-late", cfg{0, true, alg, d, []cuSpec{small}, []kern{kA, late(kA, 4)}}},
-					sc{pre + "2cu/kA+kBig", cfg{0, false, alg, d, []cuSpec{small, small}, []kern{kA, kBig}}},
-					sc{pre + "1cu/kA+kA-late", cfg{0, false, alg, d, []cuSpec{small}, []kern{kA, late(kA, 4)}}},
-					sc{pre + "2cu/kFull+kZero+kBig", cfg{0, false, alg, d, []cuSpec{small, tiny}, []kern{kFull, late(kZero, 2), late(kBig, 6)}}},
+					sc{pre + "batch/1cu/kOne+kOne", mkCfg(0, true, alg, d, []cuSpec{small}, []kern{kOne, kOne})},
+					sc{pre + "1cu/kOne+kOne+kZero", mkCfg(0, false, alg, d, []cuSpec{small}, []kern{kOne, kOne, late(kZero, 3)})},
+					sc{pre + "batch/1cu/kA+kA-late", mkCfg(0, true, alg, d, []cuSpec{small}, []kern{kA, late(kA, 4)})},
+					sc{pre + "2cu/kA+kBig", mkCfg(0, false, alg, d, []cuSpec{small, small}, []kern{kA, kBig})},
+					sc{pre + "1cu/kA+kA-late", mkCfg(0, false, alg, d, []cuSpec{small}, []kern{kA, late(kA, 4)})},
+					sc{pre + "2cu/kFull+kZero+kBig", mkCfg(0, false, alg, d, []cuSpec{small, tiny}, []kern{kFull, late(kZero, 2), late(kBig, 6)})},
 				)
 			}
 		}
@@ -597,7 +656,7 @@ func main() {
 		"a CU's resources are occupied from the MapWGReq until the CU sends the WGCompletionMsg",
 		"CUs answer every MapWGReq with exactly one completion; order and delay are explored",
 		"register demand is accounted in the dispatcher's granularity (16 SGPRs, 4 VGPRs, 256 B LDS), as the CU's allocators use the offsets it is given",
-		"kernels are 1-D with work-group sizes that are multiples of 64 (the work-group/wavefront split itself is C08)",
+		"kernels are 1-D with work-group sizes that are multiples of 64; some grids end in a partial work-group whose last wavefront is partially populated (the full work-group/wavefront/lane partition is C08's own enumeration)",
 	}
 	r.Quiet = true
 	r.RunScenarios(scs)
